@@ -72,6 +72,9 @@ impl C01 {
         if res.polls > 4000 {
             rep.labels.push("polls>4000");
         }
+        if res.polls > 16000 {
+            rep.labels.push("polls>16000");
+        }
         if matches!(cfg.runtime, Runtime::Async { .. }) {
             rep.labels.push("async");
         }
